@@ -97,7 +97,7 @@ type cliCall struct {
 
 // commands that handle every alignment of their input in turn and print one result per alignment
 var multiOps = map[string]bool{"RemoveGapSites": true, "RemoveCharacterSites": true, "RemoveMajorityCharacterSites": true,
-	"RemoveGapSeqs": true, "RemoveCharacterSeqs": true, "ReverseComplement": true, "Sort": true, "Consensus": true,
+	"RemoveGapSeqs": true, "RemoveCharacterSeqs": true, "ReverseComplement": true, "ReverseComplementSequences": true, "Sort": true, "Consensus": true,
 	"DiffWithFirst": true, "ReplaceMatchChars": true, "Translate": true, "TranslateByReference": true, "Deduplicate": true,
 	"Compress": true, "Mask": true, "MaskPositions": true, "MaskOccurences": true, "MaskUnique": true, "SubAlign": true, "RefCoordinates": true,
 	"Replace": true, "AppendSeqIdentifier": true, "TrimSequences": true, "ShuffleSequences": true, "Swap": true,
@@ -1118,6 +1118,21 @@ func (c *cliFront) plan(h *heapRun, o *obj, st Step) (*cliCall, string) {
 			"--consecutive=" + strconv.FormatBool(ab(a, "consecutive"))}}, ""
 	case "ReverseComplement":
 		return &cliCall{argv: append([]string{"revcomp"}, un...)}, ""
+	case "ReverseComplementSequences":
+		// `revcomp name ...`: only the named rows (without a name the command works on every row: not this operation)
+		argv := append([]string{"revcomp"}, un...)
+		nms := alist(a, "names")
+		if len(nms) == 0 {
+			return nil, "names"
+		}
+		for _, x := range nms {
+			nm := i2b(toInts(x))
+			if len(nm) == 0 || !printable(nm) || nm[0] == '-' {
+				return nil, "names"
+			}
+			argv = append(argv, string(nm))
+		}
+		return &cliCall{argv: argv}, ""
 	case "Sort":
 		return &cliCall{argv: append([]string{"sort"}, un...)}, ""
 	case "Consensus":
@@ -1393,6 +1408,11 @@ func (c *cliFront) plan(h *heapRun, o *obj, st Step) (*cliCall, string) {
 				return nil, "names"
 			}
 			argv = append(argv, "--ref-seq="+string(nm))
+			// every other time with --reverse too: the complement of the columns the reference positions designate
+			if (len(sites)+sites[0]+len(nm))%2 == 0 {
+				argv = append(argv, "--reverse")
+				return &cliCall{argv: argv, extra: map[string]interface{}{"rev": true}}, ""
+			}
 		case "InversePositions":
 			argv = append(argv, "--reverse")
 		}
